@@ -46,18 +46,25 @@ class Fork:
     def __next__(self):
         if self.next is None:
             if self.head.value is None:
-                with self.instream_lock:
-                    if self.head.value is None:
-                        # Get the very first data element out of `instream`
-                        # across all forks.
-                        # If this raises `StopIteration`, meaning `instream`
-                        # is empty, the exception will be propagated, halting
-                        # this fork. All the other forks will also get to this
-                        # point and exit the same way.
-                        x = next(self.instream)
-                        box = TeeX(x)
-                        self.buffer.put(box)
-                        self.head.value = box
+                while self.head.value is None:
+                    # Do not wait on the lock unconditionally: the fork holding it may be
+                    # blocked on a full buffer until this fork starts consuming.
+                    if not self.instream_lock.acquire(timeout=0.1):
+                        continue
+                    try:
+                        if self.head.value is None:
+                            # Get the very first data element out of `instream`
+                            # across all forks.
+                            # If this raises `StopIteration`, meaning `instream`
+                            # is empty, the exception will be propagated, halting
+                            # this fork. All the other forks will also get to this
+                            # point and exit the same way.
+                            x = next(self.instream)
+                            box = TeeX(x)
+                            self.buffer.put(box)
+                            self.head.value = box
+                    finally:
+                        self.instream_lock.release()
                 self.next = self.head.value
                 return self.__next__()
             elif self._state == 0:
